@@ -152,4 +152,5 @@ def load(grammars, extras=False, tag="gen", base_crates=("pest",)):
         vs = [re.sub(r"#\s*\[[^\]]*\]", "", v).strip().replace("r#", "") for v in m.group(1).split(",")]
         vs = [v for v in vs if v]
         P.variants[f"g{i}::Rule"] = vs
+        if len(oks) == 1: P.variants["Rule"] = vs
     return P, oks, d
